@@ -5,6 +5,7 @@ import numpy as np
 
 from .. import common as C
 from .. import shapes as Z
+from . import C03
 
 ASSUMPTIONS = [
     "settable properties are enumerated by reflection over every shape class; 'centroid'/'center' are translations, single semi-axes (a, b, c) are "
@@ -73,6 +74,12 @@ def run(chk):
                     tgt = cur * (2.0 ** k if not isinstance(k, str) else (1 + 2.0 ** -18 if k == "+fine" else 1 - 2.0 ** -20))
                     p0, s0, c0 = geometry(obj)
                     iq0 = C.excname(getattr, obj, "iq") if hasattr(type(obj), "iq") else ("na", None)
+                    # everything the shape reports is read once BEFORE the assignment (filling whatever the queries memoise) for two of the
+                    # targets, and compared AFTER it with a freshly constructed shape on the new vertices: the whole shape is rescaled, not
+                    # only the quantities looked at above
+                    whole = cls in Z.VERTEX_CLASSES and k in (ks[1], "+fine")
+                    if whole:
+                        C.excname(C03.full_observe, obj)
                     st, _ = C.excname(setattr, obj, prop, tgt)
                     chk.case([cls, prop, k, tilt, opp], True)
                     chk.count("cls:" + cls)
@@ -120,6 +127,8 @@ def run(chk):
                         st2, iq1 = C.excname(getattr, obj, "iq")
                         if st2 != "ok" or abs(float(iq1) - float(iq0[1])) > 1e-7 * abs(float(iq0[1])):
                             chk.violation("dimensionless-descriptor-changed", dict(desc, iq_before=float(iq0[1]), iq_after=None if st2 != "ok" else float(iq1)))
+                    if whole:
+                        C03.compare(chk, cls, ["read:observables", "set:%s=%r" % (prop, tgt)], obj)
                     chk.sample(dict(cls=cls, prop=prop, target=tgt, readback=got, scale=s))
                 bad_targets(chk, cls, prop, tilt, opp=opp)
     if KNOWN_POLYTRI:
@@ -153,6 +162,8 @@ def translation(chk, cls, prop, tilt, rng, opp):
         p0, s0, c0 = geometry(obj)
         tgt = np.array([float(x) for x in rng.integers(-8, 9, 3)]) / 2
         given = tgt.copy()
+        if cls in Z.VERTEX_CLASSES:
+            C.excname(C03.full_observe, obj)          # (everything read once before the move: memoised answers must move along)
         st, _ = C.excname(setattr, obj, prop, given)
         chk.case([cls, prop, tgt.tolist(), tilt], True)
         desc = dict(cls=cls, prop=prop, target=tgt.tolist(), tilted=tilt)
@@ -166,6 +177,8 @@ def translation(chk, cls, prop, tilt, rng, opp):
             chk.violation("translation-changed-size", dict(desc))
         if p0 is not None and not np.allclose(p1 - p0, tgt - c0, rtol=0, atol=RT * size * 10):
             chk.violation("not-a-translation", dict(desc, displacement=(p1 - p0).tolist()))
+        if cls in Z.VERTEX_CLASSES:
+            C03.compare(chk, cls, ["read:observables", "set:%s=%r" % (prop, tgt.tolist())], obj)
         # the array that was assigned stays the caller's: later size changes of the shape must not write into it, and the caller
         # re-using it must not move the shape (nor any other shape that was given the same array)
         size_prop = next((q for q in ("volume", "area", "radius", "a") if q in Z.settable_properties(obj)), None)
